@@ -17,6 +17,9 @@ func VGenAkaValue(t EapAkaPrimeAttrType, tier int) []byte {
 	case AT_RAND, AT_AUTN, AT_MAC:
 		return vr.Bytes(16)
 	case AT_RES:
+		if tier < 0 {
+			return vr.Bytes(5)
+		}
 		if tier == 0 {
 			return vr.Bytes(vr.IntOf(4, 5, 16))
 		}
@@ -24,11 +27,17 @@ func VGenAkaValue(t EapAkaPrimeAttrType, tier int) []byte {
 	case AT_KDF:
 		return vr.Bytes(2)
 	case AT_KDF_INPUT:
+		if tier < 0 {
+			return vr.Bytes(3)
+		}
 		if tier == 0 {
 			return vr.Bytes(vr.IntOf(0, 1, 4, 6))
 		}
 		return vr.Bytes(vr.IntOf(0, 1, 2, 3, 4, 5, 6, 7, 8, 31, 32, 33))
 	case AT_CHECKCODE:
+		if tier < 0 {
+			return vr.Bytes(20)
+		}
 		return vr.Bytes(vr.IntOf(0, 20, 32))
 	}
 	panic("VGenAkaValue: unsupported attribute")
@@ -61,7 +70,9 @@ func VGenEAP(method int, arg int, tier int) *EAP {
 	e.Code = EapCode(code)
 	dl := 0
 	if method == 1 || method == 2 || method == 3 {
-		if tier == 0 {
+		if tier < 0 {
+			dl = 2
+		} else if tier == 0 {
 			dl = vr.IntOf(1, 2, 5)
 		} else {
 			dl = vr.IntOf(1, 2, 3, 4, 5, 8, 17, 24)
@@ -76,7 +87,9 @@ func VGenEAP(method int, arg int, tier int) *EAP {
 		e.EapTypeData = &EapNak{NakData: vr.Bytes(dl)}
 	case 254:
 		x := &EapExpanded{VendorID: vr.U32() & 0x00ffffff, VendorType: vr.U32()}
-		if tier == 0 {
+		if tier < 0 {
+			x.VendorData = vr.Bytes(2)
+		} else if tier == 0 {
 			x.VendorData = vr.Bytes(vr.IntOf(0, 1, 4))
 		} else {
 			x.VendorData = vr.Bytes(vr.IntOf(0, 1, 2, 3, 4, 8, 17, 24))
@@ -175,4 +188,60 @@ func HEapRoundTrip() {
 		return
 	}
 	vr.Assert("c03.eap.equal", VEqEAP(e, d))
+}
+
+// VCloneEAP makes a deep copy (snapshot) of an EAP packet.
+func VCloneEAP(e *EAP) *EAP {
+	if e == nil {
+		return nil
+	}
+	c := &EAP{Code: e.Code, Identifier: e.Identifier}
+	switch x := e.EapTypeData.(type) {
+	case *EapIdentity:
+		c.EapTypeData = &EapIdentity{IdentityData: vCloneBytes(x.IdentityData)}
+	case *EapNotification:
+		c.EapTypeData = &EapNotification{NotificationData: vCloneBytes(x.NotificationData)}
+	case *EapNak:
+		c.EapTypeData = &EapNak{NakData: vCloneBytes(x.NakData)}
+	case *EapExpanded:
+		c.EapTypeData = &EapExpanded{VendorID: x.VendorID, VendorType: x.VendorType, VendorData: vCloneBytes(x.VendorData)}
+	case *EapAkaPrime:
+		a := &EapAkaPrime{subType: x.subType, reserved: x.reserved}
+		if x.attributes != nil {
+			a.attributes = make(map[EapAkaPrimeAttrType]*EapAkaPrimeAttr)
+			for _, t := range VAkaAttrs {
+				if at, ok := x.attributes[t]; ok {
+					a.attributes[t] = &EapAkaPrimeAttr{attrType: at.attrType, length: at.length, reserved: at.reserved, value: vCloneBytes(at.value)}
+				}
+			}
+		}
+		c.EapTypeData = a
+	}
+	return c
+}
+
+func vCloneBytes(b []byte) []byte {
+	if b == nil {
+		return nil
+	}
+	return append([]byte{}, b...)
+}
+
+// VEqEAPExact additionally compares the private bookkeeping of EAP-AKA' attributes (length word,
+// reserved / bit-length field), for the frame conditions of C20.
+func VEqEAPExact(a, b *EAP) bool {
+	ok := VEqEAP(a, b)
+	x, isx := a.EapTypeData.(*EapAkaPrime)
+	y, isy := b.EapTypeData.(*EapAkaPrime)
+	if isx && isy {
+		ok = vr.All(ok, x.reserved == y.reserved)
+		for _, t := range VAkaAttrs {
+			p, okp := x.attributes[t]
+			q, okq := y.attributes[t]
+			if okp && okq {
+				ok = vr.All(ok, p.length == q.length, p.reserved == q.reserved)
+			}
+		}
+	}
+	return ok
 }
